@@ -1,7 +1,739 @@
-(* C13 — the glue around sympy: what the printer prints has the value of sympy's tree *)
-From Coq Require Import List String Ascii Bool ZArith QArith Qabs Qround Lqa Lia.
-From Verif Require Import Base.Result Base.Str Spec.Poly Model.SymbolicGlue.
+(* C13 — the glue around sympy: what the printer prints is a d-decimal rounding of an expression that has exactly
+   the value of sympy's tree, and it is built from binary + * / only. *)
+From Coq Require Import List String Ascii Bool ZArith QArith Qabs Qround Lqa Lia DecimalString DecimalPos DecimalZ FinFun.
+From Verif Require Import Base.Result Base.Str Spec.Poly Model.SymbolicGlue Proofs.C13_Poly.
 Import ListNotations.
 Open Scope string_scope.
 Open Scope list_scope.
+Open Scope Q_scope.
+Arguments Qred : simpl never.
+Arguments Qplus : simpl never.
+Arguments Qmult : simpl never.
+Arguments Qminus : simpl never.
+Arguments Qopp : simpl never.
+Arguments Qdiv : simpl never.
+Arguments Qinv : simpl never.
 
+(* ------------------------------------------------------------------ numbers *)
+Lemma rhe_close x : Qabs (x - inject_Z (rhe x)) <= 1 # 2.
+Proof.
+  unfold rhe. pose proof (Qfloor_le x) as L. pose proof (Qlt_floor x) as U.
+  set (f := Qfloor x) in *.
+  assert (U' : x < inject_Z f + 1).
+  { rewrite inject_Z_plus in U. exact U. }
+  destruct (Qcompare (x - inject_Z f) (1 # 2)) eqn:C.
+  - apply Qeq_alt in C. destruct (Z.even f); [|rewrite inject_Z_plus];
+      apply Qabs_case; intros; change (inject_Z 1) with 1; lra.
+  - apply Qlt_alt in C. apply Qabs_case; intros; lra.
+  - apply Qgt_alt in C. rewrite inject_Z_plus. change (inject_Z 1) with 1. apply Qabs_case; intros; lra.
+Qed.
+
+Lemma pow10_pos d : (0 < pow10 d)%Z.
+Proof. unfold pow10. apply Z.pow_pos_nonneg; lia. Qed.
+
+Lemma pow10_S d : pow10 (S d) = (10 * pow10 d)%Z.
+Proof. unfold pow10. rewrite Nat2Z.inj_succ, Z.pow_succ_r; lia. Qed.
+
+Lemma tol_pow d : tol_of d * inject_Z (pow10 d) == 1 # 2.
+Proof.
+  unfold tol_of. destruct d as [|k]; [reflexivity|]. cbn [Nat.eqb].
+  assert (E : Z.pos (10 ^ Pos.of_nat (S k)) = pow10 (S k)).
+  { unfold pow10. rewrite Pos2Z.inj_pow. f_equal. rewrite <- positive_nat_Z, Nat2Pos.id; [reflexivity|discriminate]. }
+  unfold Qeq, Qmult, inject_Z. cbn [Qnum Qden]. rewrite <- E. lia.
+Qed.
+
+Lemma tol_nonneg d : 0 <= tol_of d.
+Proof. unfold tol_of. destruct (Nat.eqb d 0); unfold Qle; simpl; lia. Qed.
+
+(* the value n / 10^d *)
+Definition scaled (n : Z) (d : nat) : Q := inject_Z n / inject_Z (pow10 d).
+
+Lemma Qmake_scaled n d : Qred (Qmake n (Z.to_pos (pow10 d))) == scaled n d.
+Proof.
+  rewrite Qred_correct. unfold scaled. pose proof (pow10_pos d) as P.
+  rewrite (Qmake_Qdiv n (Z.to_pos (pow10 d))). rewrite Z2Pos.id by exact P. reflexivity.
+Qed.
+
+Lemma scaled_close x n d : Qabs (x * inject_Z (pow10 d) - inject_Z n) <= 1 # 2 -> Qabs (x - scaled n d) <= tol_of d.
+Proof.
+  intros H. unfold scaled. pose proof (pow10_pos d) as P. pose proof (tol_pow d) as T.
+  assert (P' : 0 < inject_Z (pow10 d)).
+  { unfold Qlt. simpl. lia. }
+  set (p := inject_Z (pow10 d)) in *.
+  assert (E : x - inject_Z n / p == (x * p - inject_Z n) / p) by (field; lra).
+  rewrite E. unfold Qdiv. rewrite Qabs_Qmult. rewrite (Qabs_pos (/ p)).
+  2:{ apply Qlt_le_weak. apply Qinv_lt_0_compat. exact P'. }
+  assert (T' : tol_of d == (1 # 2) * / p). { rewrite <- T. field. lra. }
+  rewrite T'. apply Qmult_le_compat_r; [exact H|]. apply Qlt_le_weak. apply Qinv_lt_0_compat. exact P'.
+Qed.
+
+Lemma pnum_value_eq x :
+  pnum_value x == if pn_neg x then - scaled (pn_n x) (pn_d x) else scaled (pn_n x) (pn_d x).
+Proof. unfold pnum_value. cbv zeta. destruct (pn_neg x); rewrite Qmake_scaled; reflexivity. Qed.
+
+Lemma pnum_value_pint z : pnum_value (pint z) == inject_Z z.
+Proof.
+  rewrite pnum_value_eq. unfold pint. cbn [pn_neg pn_n pn_d]. unfold scaled, pow10. simpl.
+  destruct (Z.ltb_spec z 0) as [L|L].
+  - rewrite Z.abs_neq by lia. rewrite inject_Z_opp. field.
+  - rewrite Z.abs_eq by lia. field.
+Qed.
+
+(* sign * n / 10^d where n is |x| * 10^d rounded to an integer within 1/2 *)
+Lemma signed_close d x n (neg : bool) :
+  Qabs (Qabs x * inject_Z (pow10 d) - inject_Z n) <= 1 # 2 ->
+  neg = negb (Qle_bool 0 x) ->
+  Qabs (x - (if neg then - scaled n d else scaled n d)) <= tol_of d.
+Proof.
+  intros R ->. apply scaled_close in R.
+  destruct (Qle_bool 0 x) eqn:E; cbn [negb].
+  - apply Qle_bool_iff in E.
+    assert (Hx : x - scaled n d == Qabs x - scaled n d) by (rewrite (Qabs_pos x E); reflexivity).
+    rewrite Hx. exact R.
+  - assert (N : x < 0).
+    { destruct (Qlt_le_dec x 0) as [L|L]; [exact L|]. apply Qle_bool_iff in L. congruence. }
+    assert (Hx : x - - scaled n d == - (Qabs x - scaled n d)) by (rewrite (Qabs_neg x) by lra; ring).
+    rewrite Hx, Qabs_opp. exact R.
+Qed.
+
+Lemma fmt_decimal_close d s : Qabs (s - pnum_value (fmt_decimal d s)) <= tol_of d.
+Proof.
+  rewrite pnum_value_eq. unfold fmt_decimal. cbn [pn_neg pn_n pn_d].
+  apply signed_close; [apply rhe_close|reflexivity].
+Qed.
+
+(* the reference value of a Float / Rational atom: the exact value when the rounded value is integral (the printer
+   rounds float(x) itself), otherwise the decimal text that format() rounds (str(Float): 15 significant digits) *)
+Definition href (d : nat) (v tv : Q) : Q :=
+  if Z.eqb (Z.modulo (py_round_scaled d v) (pow10 d)) 0 then v else tv.
+
+Lemma number_atom_close d v tv : Qabs (href d v tv - pnum_value (number_atom d v tv)) <= tol_of d.
+Proof.
+  unfold href, number_atom. destruct (Z.eqb_spec (Z.modulo (py_round_scaled d v) (pow10 d)) 0) as [M|M].
+  - rewrite pnum_value_pint. pose proof (pow10_pos d) as P.
+    assert (Ediv : inject_Z (py_round_scaled d v / pow10 d) == scaled (py_round_scaled d v) d).
+    { unfold scaled. apply Z.mod_divide in M; [|lia]. destruct M as [k Hk]. rewrite Hk, Z.div_mul by lia.
+      rewrite inject_Z_mult. field. unfold Qeq. simpl. lia. }
+    rewrite Ediv. unfold py_round_scaled.
+    pose proof (signed_close d v (rhe (Qabs v * inject_Z (pow10 d))) (negb (Qle_bool 0 v))
+                  (rhe_close _) eq_refl) as S.
+    destruct (Qle_bool 0 v); cbn [negb] in S; [exact S|].
+    assert (E2 : scaled (- rhe (Qabs v * inject_Z (pow10 d))) d == - scaled (rhe (Qabs v * inject_Z (pow10 d))) d).
+    { unfold scaled. rewrite inject_Z_opp. field. unfold Qeq. simpl. lia. }
+    rewrite E2. exact S.
+  - apply fmt_decimal_close.
+Qed.
+
+Lemma pnum_zero_value x : pnum_is_zero x = true -> pnum_value x == 0.
+Proof.
+  unfold pnum_is_zero. intros H. apply Z.eqb_eq in H. rewrite pnum_value_eq, H. unfold scaled.
+  destruct (pn_neg x); field; pose proof (pow10_pos (pn_d x)); unfold Qeq; simpl; lia.
+Qed.
+
+(* ------------------------------------------------------------------ printed expressions as expressions *)
+(* [pe_expr p = Some e]: every operator of p is one of the binary + - * / *)
+Fixpoint pe_expr (p : pexpr) : option expr :=
+  match p with
+  | PNum x => Some (ENum (pnum_value x))
+  | PFl t => Some (EVar t)
+  | PBin op a b =>
+      match binop_of op, pe_expr a, pe_expr b with
+      | Some o, Some x, Some y => Some (EBin o x y)
+      | _, _, _ => None
+      end
+  end.
+
+(* ------------------------------------------------------------------ induction on sympy trees *)
+Section STreeInd.
+  Variable P : stree -> Prop.
+  Hypothesis Hadd : forall args, Forall P args -> P (SAdd args).
+  Hypothesis Hmul : forall args, Forall P args -> P (SMul args).
+  Hypothesis Hpow : forall b e, P b -> P e -> P (SPow b e).
+  Hypothesis Hflt : forall v, P (SFloat v).
+  Hypothesis Hint : forall z, P (SInt z).
+  Hypothesis Hrat : forall p q, P (SRat p q).
+  Hypothesis Hsym : forall s, P (SSym s).
+  Hypothesis Hoth : forall c, P (SOther c).
+  Fixpoint stree_ind' (t : stree) : P t :=
+    match t with
+    | SAdd args => Hadd args ((fix go (l : list stree) : Forall P l :=
+                                 match l with [] => Forall_nil P | x :: r => Forall_cons x (stree_ind' x) (go r) end) args)
+    | SMul args => Hmul args ((fix go (l : list stree) : Forall P l :=
+                                 match l with [] => Forall_nil P | x :: r => Forall_cons x (stree_ind' x) (go r) end) args)
+    | SPow b e => Hpow b e (stree_ind' b) (stree_ind' e)
+    | SFloat v => Hflt v
+    | SInt z => Hint z
+    | SRat p q => Hrat p q
+    | SSym s => Hsym s
+    | SOther c => Hoth c
+    end.
+End STreeInd.
+
+(* ------------------------------------------------------------------ the exact expression of a tree *)
+(* Same nesting as the printer (so that the printed text is a STRUCTURAL rounding of it), exact constants, and the
+   terms the printer drops kept.  [hint_of] looks at what the printer does with every argument (kept / dropped,
+   number first) and nothing else. *)
+Definition opt_of (r : result (option pexpr)) : option pexpr := match r with Ok o => o | Err _ => None end.
+Definition is_some {A} (o : option A) : bool := match o with Some _ => true | None => false end.
+Definition printed_num (o : option pexpr) : bool := match o with Some p => is_number_p p | None => false end.
+
+Definition hint_add (L : list (expr * option pexpr)) : expr :=
+  let kept := filter (fun x => is_some (snd x)) L in
+  let dropped := filter (fun x => negb (is_some (snd x))) L in
+  let nf := match kept with x :: _ => printed_num (snd x) | [] => false end in
+  let base := match nestg (EBin OAdd) nf (map fst kept) with Some e => e | None => ENum 0 end in
+  fold_right (fun z acc => EBin OAdd (fst z) acc) base dropped.
+
+Definition hint_mul (L : list (expr * option pexpr)) : expr :=
+  if forallb (fun x => is_some (snd x)) L then
+    let nf := match L with x :: _ => printed_num (snd x) | [] => false end in
+    match nestg (EBin OMul) nf (map fst L) with Some e => e | None => ENum 0 end
+  else fold_right (fun z acc => EBin OMul (fst z) acc) (ENum 1) L.
+
+Fixpoint hchain (base : expr) (n : nat) : expr :=
+  match n with O => base | S k => EBin OMul (hchain base k) base end.
+
+Definition hint_pow (hb : expr) (z : Z) : expr :=
+  let c := hchain hb (Z.to_nat (Z.abs z) - 1) in
+  if Z.ltb 0 z then c else EBin ODiv (ENum 1) c.
+
+Fixpoint hint_of (d : nat) (flag : bool) (m : list (string * string)) (t : stree) : expr :=
+  match t with
+  | SAdd args => hint_add (map (fun a => (hint_of d flag m a, opt_of (conv d flag m a))) args)
+  | SMul args => hint_mul (map (fun a => (hint_of d flag m a, opt_of (conv d flag m a))) args)
+  | SPow b (SInt z) => hint_pow (hint_of d flag m b) z
+  | SPow _ _ => ENum 0
+  | SFloat v => ENum (href d v (sig15 v))
+  | SRat p q => ENum (href d (p # q) (sig15 (p # q)))
+  | SInt z => ENum (inject_Z z)
+  | SSym s => match lookup_sym m s with Some t => EVar t | None => ENum 0 end
+  | SOther _ => ENum 0
+  end.
+
+(* ------------------------------------------------------------------ what is printed rounds the exact expression *)
+Section Round.
+  Variable tol : Q.
+  Hypothesis tol_ok : 0 <= tol.
+
+  (* h is the exact expression, r what the printer returned for the same tree *)
+  Definition J (h : expr) (r : option pexpr) : Prop :=
+    match r with
+    | Some p => exists e, pe_expr p = Some e /\ eround tol h e
+    | None => vanishing tol h = true
+    end.
+
+  Lemma vanishing_zero_num : vanishing tol (ENum 0) = true.
+  Proof. simpl. apply Qle_bool_iff. exact tol_ok. Qed.
+
+  Lemma J_zero h : vanishing tol h = true -> exists e, pe_expr (PNum (pint 0)) = Some e /\ eround tol h e.
+  Proof.
+    intros V. eexists. split; [reflexivity|]. apply ER_zero; [exact V|]. apply (pnum_value_pint 0).
+  Qed.
+
+  (* nesting two lists related componentwise *)
+  Lemma nestg_J (ops : string) (o : binop) nf hs ps :
+    binop_of ops = Some o ->
+    Forall2 (fun h p => J h (Some p)) hs ps ->
+    match nestg (EBin o) nf hs, nestg (PBin ops) nf ps with
+    | Some h, Some p => J h (Some p)
+    | None, None => True
+    | _, _ => False
+    end.
+  Proof.
+    intros Ho F. induction F as [|h p hs ps Hhp F IH]; simpl; [exact I|].
+    destruct (nestg (EBin o) nf hs) as [h'|], (nestg (PBin ops) nf ps) as [p'|]; try contradiction.
+    - destruct Hhp as (e & E1 & E2). destruct IH as (e' & E1' & E2').
+      destruct nf; simpl; rewrite Ho, E1, E1'; eexists; (split; [reflexivity|]); constructor; assumption.
+    - exact Hhp.
+  Qed.
+
+  Definition JL (L : list (expr * option pexpr)) : Prop := Forall (fun x => J (fst x) (snd x)) L.
+
+  Lemma kept_rel L : JL L ->
+    Forall2 (fun h p => J h (Some p)) (map fst (filter (fun x => is_some (snd x)) L)) (somes (map snd L)).
+  Proof.
+    induction 1 as [|[h [p|]] L Hx _ IH]; simpl; [constructor| |exact IH].
+    constructor; [exact Hx|exact IH].
+  Qed.
+
+  Lemma dropped_van L : JL L -> Forall (fun x => vanishing tol (fst x) = true) (filter (fun x => negb (is_some (snd x))) L).
+  Proof.
+    induction 1 as [|[h [p|]] L Hx _ IH]; simpl; [constructor|exact IH|]. constructor; [exact Hx|exact IH].
+  Qed.
+
+  Lemma first_kept (L : list (expr * option pexpr)) :
+    match filter (fun x => is_some (snd x)) L with x :: _ => printed_num (snd x) | [] => false end
+    = match somes (map snd L) with c0 :: _ => is_number_p c0 | [] => false end.
+  Proof. induction L as [|[h [p|]] L IH]; simpl; auto. Qed.
+
+  Lemma add_dropped base p (D : list (expr * option pexpr)) :
+    J base (Some p) -> Forall (fun x => vanishing tol (fst x) = true) D ->
+    J (fold_right (fun z acc => EBin OAdd (fst z) acc) base D) (Some p).
+  Proof.
+    intros (e & E1 & E2) F. induction F as [|x D Hx _ IH]; simpl; [exists e; auto|].
+    destruct IH as (e' & E1' & E2'). exists e'. split; [exact E1'|]. apply ER_dropl; assumption.
+  Qed.
+
+  Lemma all_dropped (D : list (expr * option pexpr)) :
+    Forall (fun x => vanishing tol (fst x) = true) D ->
+    vanishing tol (fold_right (fun z acc => EBin OAdd (fst z) acc) (ENum 0) D) = true.
+  Proof.
+    induction 1 as [|x D Hx _ IH]; [apply vanishing_zero_num|]. cbn [fold_right vanishing]. rewrite Hx, IH. reflexivity.
+  Qed.
+
+  Lemma add_J L : JL L -> J (hint_add L) (nest "+" (somes (map snd L))).
+  Proof.
+    intros HL. unfold hint_add. rewrite first_kept.
+    pose proof (kept_rel L HL) as K. pose proof (dropped_van L HL) as Dv.
+    set (hs := map fst (filter (fun x => is_some (snd x)) L)) in *.
+    set (ps := somes (map snd L)) in *.
+    destruct ps as [|c0 ps'] eqn:Eps.
+    - inversion K as [E0|]; subst. simpl. apply all_dropped. exact Dv.
+    - unfold nest.
+      pose proof (nestg_J "+" OAdd (is_number_p c0) hs (c0 :: ps') eq_refl K) as N.
+      destruct (nestg (EBin OAdd) (is_number_p c0) hs) as [h|], (nestg (PBin "+") (is_number_p c0) (c0 :: ps')) as [p|];
+        try contradiction.
+      + apply add_dropped; assumption.
+      + (* both None: impossible for a non-empty list, but harmless *)
+        simpl. apply all_dropped. exact Dv.
+  Qed.
+
+  Lemma all_some_somes (L : list (expr * option pexpr)) :
+    forallb (fun x => is_some (snd x)) L = true -> filter (fun x => is_some (snd x)) L = L.
+  Proof.
+    induction L as [|[h [p|]] L IH]; simpl; intros H; [reflexivity| |discriminate]. rewrite IH; auto.
+  Qed.
+
+  Lemma mul_vanish (L : list (expr * option pexpr)) :
+    JL L -> forallb (fun x => is_some (snd x)) L = false ->
+    vanishing tol (fold_right (fun z acc => EBin OMul (fst z) acc) (ENum 1) L) = true.
+  Proof.
+    induction 1 as [|[h [p|]] L Hx _ IH]; simpl; intros H; [discriminate| |].
+    - rewrite (IH H). apply orb_true_r.
+    - simpl in Hx. rewrite Hx. reflexivity.
+  Qed.
+
+  Lemma collect_add rs : collect false rs = Some (somes rs).
+  Proof. induction rs as [|[p|] rs IH]; simpl; [reflexivity| |exact IH]. rewrite IH. reflexivity. Qed.
+
+  Lemma collect_mul rs : collect true rs = if forallb is_some rs then Some (somes rs) else None.
+  Proof.
+    induction rs as [|[p|] rs IH]; simpl; [reflexivity| |reflexivity]. rewrite IH. destruct (forallb is_some rs); reflexivity.
+  Qed.
+
+  Lemma forallb_snd (L : list (expr * option pexpr)) :
+    forallb (fun x => is_some (snd x)) L = forallb is_some (map snd L).
+  Proof. induction L as [|x L IH]; simpl; [reflexivity|]. rewrite IH. reflexivity. Qed.
+
+  Lemma mul_J L : JL L ->
+    J (hint_mul L) (match collect true (map snd L) with Some comps => nest "*" comps | None => None end).
+  Proof.
+    intros HL. unfold hint_mul. rewrite collect_mul, <- forallb_snd.
+    destruct (forallb (fun x => is_some (snd x)) L) eqn:All.
+    - pose proof (kept_rel L HL) as K. rewrite (all_some_somes L All) in K.
+      pose proof (first_kept L) as Fk. rewrite (all_some_somes L All) in Fk. rewrite Fk.
+      set (ps := somes (map snd L)) in *.
+      destruct ps as [|c0 ps'] eqn:Eps.
+      + inversion K as [E0|]; subst. simpl. apply vanishing_zero_num.
+      + unfold nest.
+        pose proof (nestg_J "*" OMul (is_number_p c0) (map fst L) (c0 :: ps') eq_refl K) as N.
+        destruct (nestg (EBin OMul) (is_number_p c0) (map fst L)) as [h|], (nestg (PBin "*") (is_number_p c0) (c0 :: ps')) as [p|];
+          try contradiction.
+        * exact N.
+        * simpl. apply vanishing_zero_num.
+    - simpl. apply mul_vanish; assumption.
+  Qed.
+End Round.
+
+(* ------------------------------------------------------------------ the printer rounds the exact expression *)
+Lemma mapM_id_map {A B} (f : A -> result B) l : forall rs,
+  mapM (fun x => x) (map f l) = Ok rs -> map f l = map (@Ok B) rs.
+Proof.
+  induction l as [|a l IH]; simpl; intros rs H.
+  - injection H as <-. reflexivity.
+  - apply bind_ok_inv in H. destruct H as (y & Hy & H). apply bind_ok_inv in H. destruct H as (ys & Hys & H).
+    injection H as <-. simpl. rewrite Hy, (IH _ Hys). reflexivity.
+Qed.
+
+Lemma J_num d h x : Qabs (h - pnum_value x) <= tol_of d -> J (tol_of d) (ENum h) (Some (PNum x)).
+Proof. intros H. eexists. split; [reflexivity|]. constructor. exact H. Qed.
+
+Lemma J_atom d (flag : bool) h x :
+  Qabs (h - pnum_value x) <= tol_of d ->
+  J (tol_of d) (ENum h) (if flag && pnum_is_zero x then None else Some (PNum x)).
+Proof.
+  intros H. destruct (flag && pnum_is_zero x) eqn:E; [|apply J_num; exact H].
+  apply andb_true_iff in E. destruct E as [_ E]. apply pnum_zero_value in E.
+  simpl. apply Qle_bool_iff. rewrite E in H.
+  assert (E2 : h - 0 == h) by ring. rewrite E2 in H. exact H.
+Qed.
+
+Lemma hchain_J tol hb eb n : eround tol hb eb -> eround tol (hchain hb n) (hchain eb n).
+Proof. intros H. induction n as [|k IH]; simpl; [exact H|]. constructor; assumption. Qed.
+
+Lemma pe_pow_chain base eb n : pe_expr base = Some eb -> pe_expr (pow_chain base n) = Some (hchain eb n).
+Proof. intros H. induction n as [|k IH]; simpl; [exact H|]. rewrite IH, H. reflexivity. Qed.
+
+Theorem conv_rounds d flag m t : forall r, conv d flag m t = Ok r -> J (tol_of d) (hint_of d flag m t) r.
+Proof.
+  pose proof (tol_nonneg d) as T.
+  induction t as [args IH|args IH|b e IHb _|v|z|p q|s|c] using stree_ind'; intros r H.
+  - (* Add *)
+    cbn [conv] in H. apply bind_ok_inv in H. destruct H as (_ & _ & H).
+    apply bind_ok_inv in H. destruct H as (rs & Hrs & H). apply mapM_id_map in Hrs.
+    rewrite collect_add in H. injection H as <-.
+    cbn [hint_of].
+    set (L := map (fun a => (hint_of d flag m a, opt_of (conv d flag m a))) args).
+    assert (Esnd : map snd L = rs).
+    { unfold L. rewrite map_map. cbn [snd]. rewrite <- (map_map (conv d flag m) opt_of), Hrs, map_map. simpl.
+      apply map_id. }
+    rewrite <- Esnd. apply add_J; [exact T|].
+    unfold JL, L. rewrite Forall_map. cbn [fst snd]. rewrite Forall_forall in IH |- *. intros a Ha.
+    assert (In (conv d flag m a) (map (@Ok _) rs)) as Hin by (rewrite <- Hrs; apply in_map; exact Ha).
+    apply in_map_iff in Hin. destruct Hin as (ra & Era & _). rewrite <- Era. simpl. apply IH; auto.
+  - (* Mul *)
+    cbn [conv] in H. apply bind_ok_inv in H. destruct H as (_ & _ & H).
+    apply bind_ok_inv in H. destruct H as (rs & Hrs & H). apply mapM_id_map in Hrs.
+    cbn [hint_of].
+    set (L := map (fun a => (hint_of d flag m a, opt_of (conv d flag m a))) args).
+    assert (Esnd : map snd L = rs).
+    { unfold L. rewrite map_map. cbn [snd]. rewrite <- (map_map (conv d flag m) opt_of), Hrs, map_map. simpl.
+      apply map_id. }
+    assert (HL : JL (tol_of d) L).
+    { unfold JL, L. rewrite Forall_map. cbn [fst snd]. rewrite Forall_forall in IH |- *. intros a Ha.
+      assert (In (conv d flag m a) (map (@Ok _) rs)) as Hin by (rewrite <- Hrs; apply in_map; exact Ha).
+      apply in_map_iff in Hin. destruct Hin as (ra & Era & _). rewrite <- Era. simpl. apply IH; auto. }
+    pose proof (mul_J (tol_of d) T L HL) as M. rewrite Esnd in M.
+    destruct (collect true rs) as [comps|]; injection H as <-; exact M.
+  - (* Pow *)
+    cbn [conv] in H. destruct e as [| | | |z| | |]; try discriminate.
+    destruct (Z.eqb z 0); [discriminate|].
+    apply bind_ok_inv in H. destruct H as (_ & _ & H).
+    apply bind_ok_inv in H. destruct H as (rb & Hrb & H). injection H as <-.
+    specialize (IHb _ Hrb). cbn [hint_of]. unfold hint_pow.
+    set (hb := hint_of d flag m b) in *. set (n := (Z.to_nat (Z.abs z) - 1)%nat).
+    assert (B : exists eb, pe_expr (match rb with Some p => p | None => PNum (pint 0) end) = Some eb
+                           /\ eround (tol_of d) hb eb).
+    { destruct rb as [pb|]; [exact IHb|]. apply J_zero. exact IHb. }
+    destruct B as (eb & E1 & E2).
+    destruct (Z.ltb 0 z).
+    + exists (hchain eb n). split; [apply pe_pow_chain; exact E1|apply hchain_J; exact E2].
+    + exists (EBin ODiv (ENum (pnum_value (pint 1))) (hchain eb n)). split.
+      * cbn [pe_expr]. rewrite (pe_pow_chain _ _ n E1). reflexivity.
+      * constructor; [|apply hchain_J; exact E2]. constructor.
+        rewrite (pnum_value_pint 1). change (inject_Z 1) with 1.
+        assert (E0 : 1 - 1 == 0) by ring. rewrite E0. exact T.
+  - (* Float *)
+    cbn [conv extract_atom] in H. cbn [hint_of].
+    pose proof (J_atom d flag _ _ (number_atom_close d v (sig15 v))) as A.
+    destruct (flag && pnum_is_zero (number_atom d v (sig15 v))); injection H as <-; exact A.
+  - (* Integer *)
+    cbn [conv extract_atom] in H. injection H as <-. cbn [hint_of]. apply J_num.
+    rewrite pnum_value_pint. assert (E0 : inject_Z z - inject_Z z == 0) by ring. rewrite E0. exact T.
+  - (* Rational *)
+    cbn [conv extract_atom] in H. cbn [hint_of].
+    pose proof (J_atom d flag _ _ (number_atom_close d (p # q) (sig15 (p # q)))) as A.
+    destruct (flag && pnum_is_zero (number_atom d (p # q) (sig15 (p # q)))); injection H as <-; exact A.
+  - (* Symbol *)
+    cbn [conv extract_atom] in H. cbn [hint_of]. destruct (lookup_sym m s) as [t|]; [|discriminate].
+    injection H as <-. exists (EVar t). split; [reflexivity|constructor].
+  - discriminate.
+Qed.
+
+(* ------------------------------------------------------------------ the exact expression has the value of the tree *)
+Fixpoint qpow (x : Q) (n : nat) : Q := match n with O => 1 | S k => qpow x k * x end.
+
+(* the value of a sympy tree: sums, products, integer powers; a Float / Rational atom has its reference value
+   [href] (see there), a symbol the value of the function text it stands for *)
+Fixpoint seval (d : nat) (m : list (string * string)) (rho : valuation) (t : stree) : Q :=
+  match t with
+  | SAdd args => fold_right (fun a acc => seval d m rho a + acc) 0 args
+  | SMul args => fold_right (fun a acc => seval d m rho a * acc) 1 args
+  | SPow b (SInt z) => let p := qpow (seval d m rho b) (Z.to_nat (Z.abs z)) in if Z.ltb 0 z then p else 1 / p
+  | SPow _ _ => 0
+  | SFloat v => href d v (sig15 v)
+  | SRat p q => href d (p # q) (sig15 (p # q))
+  | SInt z => inject_Z z
+  | SSym s => match lookup_sym m s with Some t => rho t | None => 0 end
+  | SOther _ => 0
+  end.
+
+(* trees sympy builds: no empty product, no zero exponent *)
+Fixpoint wf_tree (t : stree) : bool :=
+  match t with
+  | SAdd args => forallb wf_tree args
+  | SMul args => negb (match args with [] => true | _ => false end) && forallb wf_tree args
+  | SPow b (SInt z) => negb (Z.eqb z 0) && wf_tree b
+  | SPow b _ => wf_tree b
+  | _ => true
+  end.
+
+Section Value.
+  Variable rho : valuation.
+
+  Definition sumf {A} (f : A -> Q) (l : list A) : Q := fold_right (fun a acc => f a + acc) 0 l.
+  Definition prodf {A} (f : A -> Q) (l : list A) : Q := fold_right (fun a acc => f a * acc) 1 l.
+
+  Lemma nestg_add_eval nf hs :
+    match nestg (EBin OAdd) nf hs with Some e => eval rho e == sumf (eval rho) hs | None => hs = [] end.
+  Proof.
+    induction hs as [|h hs IH]; simpl; [reflexivity|].
+    destruct (nestg (EBin OAdd) nf hs) as [e|].
+    - destruct nf; simpl; rewrite IH; ring.
+    - subst hs. simpl. ring.
+  Qed.
+
+  Lemma nestg_mul_eval nf hs :
+    match nestg (EBin OMul) nf hs with Some e => eval rho e == prodf (eval rho) hs | None => hs = [] end.
+  Proof.
+    induction hs as [|h hs IH]; simpl; [reflexivity|].
+    destruct (nestg (EBin OMul) nf hs) as [e|].
+    - destruct nf; simpl; rewrite IH; ring.
+    - subst hs. simpl. ring.
+  Qed.
+
+  Lemma sumf_filter {A} (f : A -> Q) (p : A -> bool) l :
+    sumf f (filter p l) + sumf f (filter (fun x => negb (p x)) l) == sumf f l.
+  Proof.
+    induction l as [|a l IH]; simpl; [ring|]. destruct (p a); simpl; rewrite <- IH; ring.
+  Qed.
+
+  Lemma sumf_map {A B} (g : A -> B) (f : B -> Q) l : sumf f (map g l) = sumf (fun a => f (g a)) l.
+  Proof. induction l as [|a l IH]; simpl; [reflexivity|]. rewrite IH. reflexivity. Qed.
+
+  Lemma prodf_map {A B} (g : A -> B) (f : B -> Q) l : prodf f (map g l) = prodf (fun a => f (g a)) l.
+  Proof. induction l as [|a l IH]; simpl; [reflexivity|]. rewrite IH. reflexivity. Qed.
+
+  Lemma hint_add_eval L : eval rho (hint_add L) == sumf (fun x => eval rho (fst x)) L.
+  Proof.
+    unfold hint_add.
+    set (kept := filter (fun x => is_some (snd x)) L). set (dropped := filter (fun x => negb (is_some (snd x))) L).
+    set (nf := match kept with x :: _ => printed_num (snd x) | [] => false end).
+    assert (B : eval rho (match nestg (EBin OAdd) nf (map fst kept) with Some e => e | None => ENum 0 end)
+                == sumf (fun x => eval rho (fst x)) kept).
+    { pose proof (nestg_add_eval nf (map fst kept)) as N.
+      destruct (nestg (EBin OAdd) nf (map fst kept)) as [e|].
+      - rewrite N, sumf_map. reflexivity.
+      - destruct kept; [reflexivity|discriminate]. }
+    set (base := match nestg (EBin OAdd) nf (map fst kept) with Some e => e | None => ENum 0 end) in *.
+    assert (D : forall l : list (expr * option pexpr), eval rho (fold_right (fun z acc => EBin OAdd (fst z) acc) base l)
+                          == sumf (fun x => eval rho (fst x)) l + eval rho base).
+    { induction l as [|z l IHl]; simpl; [ring|]. rewrite IHl. ring. }
+    rewrite D, B. rewrite <- (sumf_filter (fun x => eval rho (fst x)) (fun x => is_some (snd x)) L).
+    fold kept dropped. ring.
+  Qed.
+
+  Lemma hint_mul_eval L : L <> [] -> eval rho (hint_mul L) == prodf (fun x => eval rho (fst x)) L.
+  Proof.
+    intros NE. unfold hint_mul. destruct (forallb (fun x => is_some (snd x)) L).
+    - set (nf := match L with x :: _ => printed_num (snd x) | [] => false end).
+      pose proof (nestg_mul_eval nf (map fst L)) as N.
+      destruct (nestg (EBin OMul) nf (map fst L)) as [e|].
+      + rewrite N, prodf_map. reflexivity.
+      + destruct L; [contradiction|discriminate].
+    - induction L as [|z l IHl]; [contradiction|]. simpl.
+      destruct l as [|z' l']; [simpl; ring|]. rewrite IHl by discriminate. reflexivity.
+  Qed.
+
+  Lemma qpow_comp x y n : x == y -> qpow x n == qpow y n.
+  Proof. intros H. induction n as [|k IH]; simpl; [reflexivity|]. rewrite IH, H. reflexivity. Qed.
+
+  Lemma hchain_eval hb n : eval rho (hchain hb n) == qpow (eval rho hb) (S n).
+  Proof. induction n as [|k IH]; simpl; [ring|]. rewrite IH. simpl. ring. Qed.
+
+  Lemma sumf_ext {A} (f g : A -> Q) l : Forall (fun a => f a == g a) l -> sumf f l == sumf g l.
+  Proof. induction 1 as [|a l H _ IH]; simpl; [reflexivity|]. rewrite H, IH. reflexivity. Qed.
+
+  Lemma prodf_ext {A} (f g : A -> Q) l : Forall (fun a => f a == g a) l -> prodf f l == prodf g l.
+  Proof. induction 1 as [|a l H _ IH]; simpl; [reflexivity|]. rewrite H, IH. reflexivity. Qed.
+
+  Theorem hint_value d flag m t : wf_tree t = true -> eval rho (hint_of d flag m t) == seval d m rho t.
+  Proof.
+    induction t as [args IH|args IH|b e IHb _|v|z|p q|s|c] using stree_ind'; intros W.
+    - cbn [hint_of seval]. rewrite hint_add_eval, sumf_map. cbn [fst].
+      change (fold_right (fun a acc => seval d m rho a + acc) 0 args) with (sumf (seval d m rho) args).
+      apply sumf_ext. cbn [wf_tree] in W. rewrite forallb_forall in W. rewrite Forall_forall in IH |- *.
+      intros a Ha. apply IH; auto.
+    - cbn [hint_of seval]. cbn [wf_tree] in W. apply andb_true_iff in W. destruct W as [NE W].
+      rewrite hint_mul_eval by (destruct args; [discriminate|discriminate]).
+      rewrite prodf_map. cbn [fst].
+      change (fold_right (fun a acc => seval d m rho a * acc) 1 args) with (prodf (seval d m rho) args).
+      apply prodf_ext. rewrite forallb_forall in W. rewrite Forall_forall in IH |- *.
+      intros a Ha. apply IH; auto.
+    - destruct e as [| | | |z| | |]; cbn [hint_of seval]; try reflexivity.
+      cbn [wf_tree] in W. apply andb_true_iff in W. destruct W as [Z W]. apply negb_true_iff in Z. apply Z.eqb_neq in Z.
+      unfold hint_pow. cbv zeta.
+      assert (E : S (Z.to_nat (Z.abs z) - 1) = Z.to_nat (Z.abs z)) by lia.
+      pose proof (qpow_comp _ _ (Z.to_nat (Z.abs z)) (IHb W)) as Q.
+      destruct (Z.ltb 0 z); cbn [eval bin_sem]; rewrite hchain_eval, E, Q; reflexivity.
+    - reflexivity.
+    - reflexivity.
+    - reflexivity.
+    - cbn [hint_of seval]. destruct (lookup_sym m s); reflexivity.
+    - reflexivity.
+  Qed.
+End Value.
+
+(* ------------------------------------------------------------------ symbol names are injective *)
+Lemma NoDup_snoc {A} (l : list A) x : NoDup l -> ~ In x l -> NoDup (l ++ [x]).
+Proof.
+  intros N H. induction N as [|a l Ha N IH]; simpl; [constructor; [intros []|constructor]|].
+  constructor.
+  - intros Hin. apply in_app_or in Hin. destruct Hin as [Hin|[<-|[]]]; [contradiction|]. apply H. left. reflexivity.
+  - apply IH. intros Hin. apply H. right. exact Hin.
+Qed.
+
+Lemma fresh_name_fresh base used n : fresh_name base used = Ok n -> ~ In n used.
+Proof.
+  unfold fresh_name. destruct (find _ _) as [i|] eqn:F; [|discriminate]. intros H. injection H as <-.
+  apply find_some in F. destruct F as [_ F]. apply negb_true_iff in F. intros Hin. apply str_in_In in Hin. congruence.
+Qed.
+
+Definition inj_map (m : list (string * string)) : Prop := NoDup (map fst m) /\ NoDup (map snd m).
+
+Lemma transform_step (m m' : list (string * string)) v :
+  inj_map m ->
+  (if str_in v (map fst m) then Ok m
+   else do n <- fresh_name (symbol_name v) (map snd m); Ok (m ++ [(v, n)])) = Ok m' ->
+  inj_map m'.
+Proof.
+  intros [N1 N2] H. destruct (str_in v (map fst m)) eqn:E.
+  - injection H as <-. split; assumption.
+  - apply bind_ok_inv in H. destruct H as (n & Hn & H). injection H as <-.
+    apply fresh_name_fresh in Hn. split; rewrite map_app; simpl; apply NoDup_snoc; auto.
+    intros Hin. apply str_in_In in Hin. congruence.
+Qed.
+
+(* every function text gets its own symbol and every symbol stands for one function text *)
+Theorem transform_map_injective given found m :
+  transform_map given found = Ok m -> inj_map given -> inj_map m.
+Proof.
+  unfold transform_map. generalize (sort_strings found) as l. intros l. revert given.
+  induction l as [|v l IH]; intros given H G; simpl in H.
+  - injection H as <-. exact G.
+  - destruct (str_in v (map fst given)) eqn:E.
+    + apply (IH given); [|exact G]. exact H.
+    + destruct (fresh_name (symbol_name v) (map snd given)) as [n|k] eqn:F.
+      * apply (IH (given ++ [(v, n)])); [exact H|].
+        apply (transform_step given _ v G). rewrite E, F. reflexivity.
+      * (* the error propagates through the remaining steps *)
+        exfalso. clear -H. simpl in H. induction l as [|w l IHl]; simpl in H; [discriminate|]. apply IHl. exact H.
+Qed.
+
+(* in an injective map a symbol is looked up to the one text it was made for, and different texts have different symbols *)
+Lemma lookup_sym_in m s t : lookup_sym m s = Some t -> In (t, s) m.
+Proof.
+  induction m as [|[t' s'] m IH]; simpl; [discriminate|].
+  destruct (lookup_sym m s) as [t''|] eqn:E.
+  - intros H. injection H as <-. right. apply IH. reflexivity.
+  - destruct (String.eqb s' s) eqn:Es; [|discriminate]. intros H. injection H as <-.
+    apply String.eqb_eq in Es. subst. left. reflexivity.
+Qed.
+
+Lemma NoDup_fst_functional {A B} (m : list (A * B)) a b b' : NoDup (map fst m) -> In (a, b) m -> In (a, b') m -> b = b'.
+Proof.
+  induction m as [|[x y] m IH]; simpl; intros N H H'; [contradiction|].
+  inversion N as [|? ? Hx N']; subst.
+  destruct H as [H|H], H' as [H'|H'].
+  - congruence.
+  - injection H as <- <-. exfalso. apply Hx. apply (in_map fst) in H'. exact H'.
+  - injection H' as <- <-. exfalso. apply Hx. apply (in_map fst) in H. exact H.
+  - eauto.
+Qed.
+
+Theorem lookup_sym_injective m s1 s2 t :
+  inj_map m -> lookup_sym m s1 = Some t -> lookup_sym m s2 = Some t -> s1 = s2.
+Proof.
+  intros [N _] H1 H2. apply lookup_sym_in in H1. apply lookup_sym_in in H2.
+  exact (NoDup_fst_functional m t s1 s2 N H1 H2).
+Qed.
+
+(* ------------------------------------------------------------------ the glue theorem *)
+Theorem glue_sound d flag m t r :
+  conv d flag m t = Ok r ->
+  exists h : expr,
+    (wf_tree t = true -> forall rho, eval rho h == seval d m rho t) /\
+    match r with
+    | Some p => exists e, pe_expr p = Some e /\ eround (tol_of d) h e
+    | None => vanishing (tol_of d) h = true
+    end.
+Proof.
+  intros H. exists (hint_of d flag m t). split.
+  - intros W rho. apply hint_value. exact W.
+  - exact (conv_rounds d flag m t r H).
+Qed.
+
+(* convert_expr_to_pddl prints that expression, or 0 when everything vanished *)
+Theorem convert_text d flag m t s :
+  convert_expr_to_pddl d flag m t = Ok s ->
+  exists r, conv d flag m t = Ok r /\ s = match r with Some p => show_pexpr p | None => "0" end.
+Proof.
+  unfold convert_expr_to_pddl. intros H. apply bind_ok_inv in H. destruct H as (_ & _ & H).
+  apply bind_ok_inv in H. destruct H as (r & Hr & H). injection H as <-. exists r. auto.
+Qed.
+
+(* the hypotheses are satisfiable: 0.004*x*y + 2.99999*x**-2 + y/3 at 2 decimals, as sympy orders it *)
+Example glue_example :
+  let m := [("(x ?a)", "xa"); ("(y ?a)", "ya")] in
+  let t := SAdd [SMul [SFloat (4 # 1000); SSym "xa"; SSym "ya"];
+                 SMul [SFloat (299999 # 100000); SPow (SSym "xa") (SInt (-2))];
+                 SMul [SRat 1 3; SSym "ya"]] in
+  wf_tree t = true /\
+  convert_expr_to_pddl 2 true m t = Ok "(+ (* (/ 1 (* (x ?a) (x ?a))) 3) (* (y ?a) 0.33))".
+Proof. vm_compute. split; reflexivity. Qed.
+
+Example naming_example :
+  transform_map [] ["(fx ?a)"; "(f-x ?a)"; "(fx_1 ?a)"]
+  = Ok [("(f-x ?a)", "fxa"); ("(fx ?a)", "fxa_1"); ("(fx_1 ?a)", "fx_1a")].
+Proof. vm_compute. reflexivity. Qed.
+
+(* ------------------------------------------------------------------ the naming loop always finds a free name *)
+Lemma append_nil_r' (s : string) : (s ++ "")%string = s.
+Proof. induction s as [|c s IH]; simpl; [reflexivity|]. rewrite IH. reflexivity. Qed.
+
+Lemma append_same_prefix (b s1 s2 : string) : (b ++ s1)%string = (b ++ s2)%string -> s1 = s2.
+Proof. induction b as [|c b IH]; simpl; intros H; [exact H|]. injection H as H. apply IH. exact H. Qed.
+
+Lemma nat_digits_inj a b : (0 < a)%Z -> (0 < b)%Z -> nat_digits a = nat_digits b -> a = b.
+Proof.
+  unfold nat_digits. intros Ha Hb H.
+  assert (N : forall z, (0 < z)%Z -> Z.to_int z <> Decimal.Pos Decimal.Nil /\ Z.to_int z <> Decimal.Neg Decimal.Nil).
+  { intros z Hz. destruct z as [|p|p]; try lia. simpl. split; [|discriminate].
+    intros E. injection E as E. apply (DecimalPos.Unsigned.to_uint_nonnil p). exact E. }
+  destruct (N a Ha) as [A1 A2]. destruct (N b Hb) as [B1 B2].
+  pose proof (NilZero.isi _ A1 A2) as Ia. pose proof (NilZero.isi _ B1 B2) as Ib.
+  rewrite H in Ia. rewrite Ia in Ib. injection Ib as Ib. apply DecimalZ.to_int_inj. exact Ib.
+Qed.
+
+Definition name_suffix (i : nat) : string := match i with O => "" | S _ => ("_" ++ nat_digits (Z.of_nat i))%string end.
+
+Lemma name_cand_suffix base i : name_cand base i = (base ++ name_suffix i)%string.
+Proof. destruct i; simpl; [symmetry; apply append_nil_r'|reflexivity]. Qed.
+
+Lemma name_cand_inj base : Injective (name_cand base).
+Proof.
+  intros i j H. rewrite !name_cand_suffix in H. apply append_same_prefix in H.
+  destruct i as [|i], j as [|j]; simpl in H; try discriminate; [reflexivity|].
+  injection H as H. apply nat_digits_inj in H; lia.
+Qed.
+
+Theorem fresh_name_total base used : exists n, fresh_name base used = Ok n.
+Proof.
+  unfold fresh_name. destruct (find _ _) as [i|] eqn:F; [eauto|]. exfalso.
+  set (l := map (name_cand base) (seq 0 (S (List.length used)))).
+  assert (I : incl l used).
+  { intros x Hx. unfold l in Hx. apply in_map_iff in Hx. destruct Hx as (i & <- & Hi).
+    pose proof (find_none _ _ F i Hi) as Hn. apply negb_false_iff in Hn. apply str_in_In. exact Hn. }
+  assert (N : NoDup l).
+  { unfold l. apply Injective_map_NoDup; [apply name_cand_inj|apply seq_NoDup]. }
+  pose proof (NoDup_incl_length N I) as L. unfold l in L. rewrite map_length, seq_length in L. lia.
+Qed.
+
+(* hence transform_expression's dictionary is always built *)
+Theorem transform_map_total given found : exists m, transform_map given found = Ok m.
+Proof.
+  unfold transform_map. generalize (sort_strings found) as l. intros l. revert given.
+  induction l as [|v l IH]; intros given; simpl; [eauto|].
+  destruct (str_in v (map fst given)); [apply IH|].
+  destruct (fresh_name_total (symbol_name v) (map snd given)) as (n & ->). simpl. apply IH.
+Qed.
